@@ -89,6 +89,11 @@ func (e *env) reopen(witness func(map[string]any) any) string {
 		e.res.Count("reopen_block_tip_behind_honest_tip", 1)
 	}
 
+	if p.Start != nil && !p.Start.SecondClient {
+		// start-state family: this scenario ends with the validated stores.
+		return "ok-stores-only"
+	}
+
 	// Second client on the same directory; every peer is now plainly honest.
 	e.allHonest()
 	e.hook.mu.Lock()
